@@ -25,6 +25,46 @@ CHECKS = {
         technique="bounded exhaustive enumeration of inputs (all token strings up to length L, all 1-2 edit neighbours and all prefixes of seed documents) executed on the real loader",
         text="Every byte string composed of <= 4 (thorough 5) tokens of a 40-token XML alphabet, every prefix and every single (thorough: every pair of) token/byte edit of 12 seed documents and a nesting ladder are loaded strictly, leniently and probed with check_buffer; panics, aborts, hangs, out-of-range error lines and check_buffer/load disagreement are violations. Exhaustive inside these bounds, silent outside them.",
         note="Trusted: catch_unwind reports every panic; a stack overflow is only observed in the child-process ladder. Inputs longer than the bound that are not within 2 edits of a seed are not covered."),
+    "C03": dict(
+        engine="histx", category="model_checking", design="DESIGN.md sections 3 and 5, C03",
+        technique='explicit-state breadth-first search over histories of public API calls executed on the real model (states = histories replayed from seed models, merged by a canonical form of files, tree, membership, path index and referrer lists); invariants evaluated in every state, transition oracles on every transition',
+        text="All histories of depth <= 2 (thorough 3) over create / create-at / named / copy / move / remove / rename / SHORT-NAME edit / sort (and, to depth 2, the file operations and the full alphabet) from six seed models; in every state the harness's own walk must agree with parent(), position(), get_sub_element_at(), model(), sub_elements(), and the model-, element- and file-scoped depth-first iterators with and without depth limit; after every transition every place-dependent method is called through every handle that is no longer reachable from the root (20 methods x up to 12 stale handles): each must fail and the live model's canonical form must not change.",
+        note='Trusted: equal canonical forms have equal futures; stale handles are swept per transition replay rather than kept in the state key. Histories longer than the depth bound and universes other than the six seed models are outside. A transition that hits a recorded known finding of any property is not expanded.'),
+    "C04": dict(
+        engine="histx", category="model_checking", design="DESIGN.md sections 3 and 5, C04",
+        technique='explicit-state breadth-first search over histories of public API calls executed on the real model (states = histories replayed from seed models, merged by a canonical form of files, tree, membership, path index and referrer lists); invariants evaluated in every state, transition oracles on every transition',
+        text="Same exploration (tree, file/load and full alphabets). In every state: every identifiable element's path() equals the concatenation of the item names of its identifiable ancestors, no two elements share a path, identifiable_elements() lists exactly these (path, element) pairs once, get_element_by_path returns that very element and returns nothing for seven near-miss variants of every path.",
+        note='Trusted: equal canonical forms have equal futures; stale handles are swept per transition replay rather than kept in the state key. Histories longer than the depth bound and universes other than the six seed models are outside. A transition that hits a recorded known finding of any property is not expanded.'),
+    "C05": dict(
+        engine="histx", category="model_checking", design="DESIGN.md sections 3 and 5, C05",
+        technique='explicit-state breadth-first search over histories of public API calls executed on the real model (states = histories replayed from seed models, merged by a canonical form of files, tree, membership, path index and referrer lists); invariants evaluated in every state, transition oracles on every transition',
+        text='Histories over reference-related operations (set_reference_target, set_character_data on references with every existing / dangling / future path, remove_character_data, DEST edits, rename, move within and between models, remove, copy, load). In every state: for every key of the referrer map (hook), every path and every reference text the live entries of get_references_to equal the references in the tree with that text; check_references equals the set of references whose text does not resolve or whose DEST does not fit; a reference is absent from the report exactly when get_reference_target returns the element the walk finds.',
+        note='Trusted: equal canonical forms have equal futures; stale handles are swept per transition replay rather than kept in the state key. Histories longer than the depth bound and universes other than the six seed models are outside. A transition that hits a recorded known finding of any property is not expanded.'),
+    "C06": dict(
+        engine="histx", category="model_checking", design="DESIGN.md sections 3 and 5, C06",
+        technique='explicit-state breadth-first search over histories of public API calls executed on the real model (states = histories replayed from seed models, merged by a canonical form of files, tree, membership, path index and referrer lists); invariants evaluated in every state, transition oracles on every transition',
+        text='Every rename and same-model move / move-at transition of the reference alphabet from seeds with several referrers per target, nested targets, /a1 vs /a10 prefixes, dangling references equal to future paths: every reference that designated the moved element or an identifiable element below it designates the same element object afterwards, every other reference keeps its text (dangling references below the old path: either outcome).',
+        note='Trusted: equal canonical forms have equal futures; stale handles are swept per transition replay rather than kept in the state key. Histories longer than the depth bound and universes other than the six seed models are outside. A transition that hits a recorded known finding of any property is not expanded.'),
+    "C10": dict(
+        engine="histx", category="model_checking", design="DESIGN.md sections 3 and 5, C10",
+        technique='explicit-state breadth-first search over histories of public API calls executed on the real model (states = histories replayed from seed models, merged by a canonical form of files, tree, membership, path index and referrer lists); invariants evaluated in every state, transition oracles on every transition',
+        text="Histories over create_file, remove_file, add_to_file, remove_from_file, set_filename, set_version, load_buffer (8 documents), named creation and removal from one- and two-file seeds. In every state: local file sets are subsets of the model's files and of the parent's effective set, every element is in some file's view, file-scoped iteration equals the membership-derived view, and every file's text loads on its own and has exactly the elements attributed to it; remove_file removes exactly the elements attributed to that file alone and leaves the content of every other file unchanged.",
+        note='Trusted: equal canonical forms have equal futures; stale handles are swept per transition replay rather than kept in the state key. Histories longer than the depth bound and universes other than the six seed models are outside. A transition that hits a recorded known finding of any property is not expanded.'),
+    "C11": dict(
+        engine="histx", category="model_checking", design="DESIGN.md sections 3 and 5, C11",
+        technique='explicit-state breadth-first search over histories of public API calls executed on the real model (states = histories replayed from seed models, merged by a canonical form of files, tree, membership, path index and referrer lists); invariants evaluated in every state, transition oracles on every transition',
+        text='Every failing call of the full alphabet (invalid names, duplicate names, invalid positions, foreign handles, descendants as destination, version mismatch, loads failing in the lexer, parser, merge and overlap stages) in every state to depth 1 (thorough 2), file operations to depth 2 (3): the canonical form of both models (tree with all values and comments, files, membership, path index, referrer lists over all keys) is identical before and after.',
+        note='Trusted: equal canonical forms have equal futures; stale handles are swept per transition replay rather than kept in the state key. Histories longer than the depth bound and universes other than the six seed models are outside. A transition that hits a recorded known finding of any property is not expanded.'),
+    "C12": dict(
+        engine="histx", category="model_checking", design="DESIGN.md sections 3 and 5, C12",
+        technique='explicit-state breadth-first search over histories of public API calls executed on the real model (states = histories replayed from seed models, merged by a canonical form of files, tree, membership, path index and referrer lists); invariants evaluated in every state, transition oracles on every transition',
+        text='Every transition of the full alphabet to depth 1 (thorough 2) and of the structural core to depth 2 (3) from all seeds including the leniently loaded one, under the sequential lock hook: no panic, no ParentElementLocked, no blocking acquisition of a lock the calling thread already holds (turned into a report instead of a hang), no lock left held; after every transition ~60 read-only methods on every element, file and model and every place-dependent method through stale handles.',
+        note='Trusted: equal canonical forms have equal futures; stale handles are swept per transition replay rather than kept in the state key. Histories longer than the depth bound and universes other than the six seed models are outside. A transition that hits a recorded known finding of any property is not expanded.'),
+    "C13": dict(
+        engine="histx", category="model_checking", design="DESIGN.md sections 3 and 5, C13",
+        technique='explicit-state breadth-first search over histories of public API calls executed on the real model (states = histories replayed from seed models, merged by a canonical form of files, tree, membership, path index and referrer lists); invariants evaluated in every state, transition oracles on every transition',
+        text="Every copy / copy-at transition (any live or foreign element into any plausible parent): content equals the source filtered by what the destination's version permits, apart from a numeric suffix on the copy's own name; every copied identifiable resolves by its path and every copied reference is listed; no element object is shared; the source model is unchanged. duplicate() in every state to depth 1: per-file text, tree, membership and indexes equal, and every operation of the full alphabet applied to either side leaves the other side's canonical form unchanged.",
+        note='Trusted: equal canonical forms have equal futures; stale handles are swept per transition replay rather than kept in the state key. Histories longer than the depth bound and universes other than the six seed models are outside. A transition that hits a recorded known finding of any property is not expanded.'),
     "C07": dict(
         engine="specwalk", category="model_checking", design="DESIGN.md section 5, C07",
         technique="explicit-state exploration per content model: every datatype x version, every content state reachable by <= 2-3 creations, every candidate sub-element at every position (create-at, copy-at, move-at), every value/attribute candidate; each step executed through the real editing API and compared with the harness's own order checker and table-driven validator, then serialized and reloaded leniently",
